@@ -56,6 +56,9 @@ pub enum Case {
     MintFee { kind: MinterKind, price: u128, bps: u64, new_dev: bool },
     /// base minter: set mint_fee_bps, then mint paying `paid`
     BaseMint { bps: u64, paid: u128 },
+    /// set airdrop_mint_price / airdrop_mint_fee_bps / shuffle_fee on the factory of an existing
+    /// minter, then admin MintTo at the old and the new price, Shuffle at the old and the new fee
+    AirdropShuffle { kind: MinterKind, price: u128, bps: u64, shuffle: u128 },
 }
 
 fn oc(c: &Option<C>) -> Value {
@@ -916,12 +919,83 @@ fn run_base_mint(bps: u64, paid: u128) -> Outcome {
     }
 }
 
+fn run_airdrop_shuffle(kind: MinterKind, price: u128, bps: u64, shuffle: u128) -> Outcome {
+    let fk = kind.factory();
+    let f = fk.name();
+    let mut w = setup_minter(kind);
+    let old = w.params.clone();
+    let has_shuffle = fk != FactoryKind::OpenEdition;
+    let mut u = Upd { airdrop_mint_price: Some((NATIVE.to_string(), price)), airdrop_mint_fee_bps: Some(bps), ..Default::default() };
+    if has_shuffle {
+        u.shuffle_fee = Some((NATIVE.to_string(), shuffle));
+    }
+    sudo_json(&mut w.app, &w.factory, &upd_json(fk, &u)).expect("update accepted");
+    let t = chain::now(&w.app) + 200 * 1_000_000_000;
+    chain::set_time(&mut w.app, t);
+    chain::mint_coins(&mut w.app, BUYER, shuffle.max(old.shuffle_fee.1) * 4 + 10, NATIVE);
+    let dev = old.dev_fee_address.clone();
+    let recipients = [LIQUIDITY_DAO, LAUNCHPAD_DAO, dev.as_str()];
+    let received = |app: &App| recipients.iter().map(|a| chain::balance(app, a, NATIVE)).sum::<u128>();
+    let funds = |a: u128| if a == 0 { vec![] } else { vec![cosmwasm_std::coin(a, NATIVE)] };
+    let mut viol = vec![];
+    let mut coq = vec![];
+    let mut hist = vec![];
+    let mint_to = json!({ "mint_to": { "recipient": BUYER } });
+    // airdrop at the OLD price (exact payment is demanded, so it must be refused when the price moved)
+    let old_price = old.airdrop_mint_price.1;
+    if old_price != price {
+        let r = exec_json(&mut w.app, CREATOR, &w.minter, &mint_to, &funds(old_price));
+        if r.is_ok() {
+            viol.push((format!("{}:mint-did-not-observe:airdrop_mint_price", f), format!("{}: airdrop paying the old price {} accepted, governance set {}", kind.name(), old_price, price)));
+        }
+        hist.push(format!("{}:airdrop-old-price:{}", kind.name(), if r.is_ok() { "ok" } else { "err" }));
+        coq.push(format!("CPayProbe true {} {} {}", price, old_price, coq_bool(r.is_ok())));
+    }
+    let before = received(&w.app);
+    let r = exec_json(&mut w.app, CREATOR, &w.minter, &mint_to, &funds(price));
+    let ok_new = r.is_ok();
+    if !ok_new {
+        viol.push((format!("{}:mint-did-not-observe:airdrop_mint_price", f), format!("{}: airdrop paying the new price {} refused: {:?}", kind.name(), price, r.err())));
+    } else {
+        let delta = received(&w.app) - before;
+        let want = price * bps as u128 / 10_000;
+        if delta != want {
+            viol.push((format!("{}:mint-did-not-observe:airdrop_mint_fee_bps", f), format!("{}: airdrop at {} under {} bps: fee recipients received {}, expected {}", kind.name(), price, bps, delta, want)));
+        }
+        coq.push(format!("CNetFee {} {} {}", price, bps, delta));
+    }
+    hist.push(format!("{}:airdrop-new-price:{}", kind.name(), if ok_new { "ok" } else { "err" }));
+    coq.push(format!("CPayProbe true {} {} {}", price, price, coq_bool(ok_new)));
+    if has_shuffle {
+        let sh = json!({ "shuffle": {} });
+        let old_fee = old.shuffle_fee.1;
+        for (label, paid) in [("old", old_fee), ("new", shuffle)] {
+            let r = exec_json(&mut w.app, BUYER, &w.minter, &sh, &funds(paid));
+            let want_ok = paid >= shuffle;
+            if r.is_ok() != want_ok {
+                viol.push((format!("{}:mint-did-not-observe:shuffle_fee", f), format!("{}: shuffle paying the {} fee {} gave ok={} although governance set {} ({:?})", kind.name(), label, paid, r.is_ok(), shuffle, r.as_ref().err())));
+            }
+            hist.push(format!("{}:shuffle-{}-fee:{}", kind.name(), label, if r.is_ok() { "ok" } else { "err" }));
+            coq.push(format!("CPayProbe false {} {} {}", shuffle, paid, coq_bool(r.is_ok())));
+        }
+    }
+    Outcome {
+        steps: coq.len() as u64 + 1,
+        coq: coq.join(" ;; "),
+        nontrivial: ok_new,
+        viol,
+        hist,
+        sample: format!("{}: airdrop price {} bps {} shuffle {}", kind.name(), price, bps, shuffle),
+    }
+}
+
 fn run_case(c: &Case) -> Outcome {
     match c {
         Case::Hist { kind, init, probes, steps, tag } => run_hist(*kind, init, probes, steps, tag),
         Case::Status { kind, flags } => run_status(*kind, flags),
         Case::MintFee { kind, price, bps, new_dev } => run_mint_fee(*kind, *price, *bps, *new_dev),
         Case::BaseMint { bps, paid } => run_base_mint(*bps, *paid),
+        Case::AirdropShuffle { kind, price, bps, shuffle } => run_airdrop_shuffle(*kind, *price, *bps, *shuffle),
     }
 }
 
@@ -953,7 +1027,8 @@ pub fn run(a: &Args) {
         }
         for (key, what) in &o.viol {
             nviol += 1;
-            if rep.violations.len() < 20 {
+            let fresh = !rep.violations.iter().any(|v| v.key == format!("C18:{}", key));
+            if rep.violations.len() < 20 || (fresh && rep.violations.len() < 60) {
                 let body = format!(
                     "{{\n \"property\": \"C18\",\n \"case\": {},\n \"violation\": {}\n}}\n",
                     serde_json::to_string(c).unwrap(),
@@ -1474,6 +1549,15 @@ fn mint_cases(a: &Args, rng: &mut Rng) -> Vec<Case> {
             out.push(Case::MintFee { kind: k, price: *price, bps: *bps, new_dev: i % 2 == 0 });
         }
     }
+    for k in MinterKind::ALL {
+        if k == MinterKind::Base {
+            continue;
+        }
+        // (price, bps, shuffle): each differs from the defaults of every factory kind
+        for (price, bps, shuffle) in [(1_000_000u128, 3_000u64, 700_000_000u128), (250_000_000, 10_000, 500_000_001), (40_000, 0, 900_000_000)] {
+            out.push(Case::AirdropShuffle { kind: k, price, bps, shuffle });
+        }
+    }
     for bps in [10_000u64, 5_000, 1, 0, 20_000] {
         let fee = 50_000_000u128 * bps as u128 / 10_000;
         for paid in [fee.saturating_sub(1), fee, fee + 1, 50_000_000] {
@@ -1546,6 +1630,12 @@ fn probes_after(kind: FactoryKind, old: &FParams, new: &FParams, third: u64, wan
         for x in [new.min_mint_price.1.saturating_sub(1), new.min_mint_price.1, old.min_mint_price.1] {
             let d2 = d.clone();
             v.push(pr("min_mint_price", &move |r| r.mint_price = (d2.clone(), x)));
+        }
+        if old.min_mint_price.0 != new.min_mint_price.0 {
+            // a price in the denom the minimum used to have
+            let od = old.min_mint_price.0.clone();
+            let amt = new.min_mint_price.1.max(old.min_mint_price.1) + 1;
+            v.push(pr("min_mint_price", &move |r| r.mint_price = (od.clone(), amt)));
         }
     }
     if kind == FactoryKind::OpenEdition && want("airdrop_mint_price") {
@@ -1664,6 +1754,20 @@ fn probe_hists(a: &Args, rng: &mut Rng) -> Vec<Case> {
             steps.push(Step::Upd(Upd { creation_fee: Some(f0.clone()), ..Default::default() }));
             steps.extend(probes_after(kind, &l, &init, third, &|p| p == "creation_fee"));
             out.push(hist(kind, init, steps, &format!("fee-transition-{}", i)));
+        }
+        // 1b. the minimum mint price moves from an IBC denom (possible at instantiation only) to ustars
+        if matches!(kind, FactoryKind::Vending | FactoryKind::OpenEdition) {
+            let mut init = probe_init(kind, &n(1000));
+            init.min_mint_price = (IBC.to_string(), 100);
+            let mut l = init.clone();
+            l.min_mint_price = n(150);
+            let mut steps = probes_after(kind, &init, &init, third, &|p| p == "min_mint_price");
+            steps.push(Step::Upd(Upd { min_mint_price: Some(n(150)), ..Default::default() }));
+            steps.extend(probes_after(kind, &init, &l, third, &|p| p == "min_mint_price"));
+            // an attempt to move it back is refused and must leave creations on ustars
+            steps.push(Step::Upd(Upd { min_mint_price: Some((IBC.to_string(), 100)), ..Default::default() }));
+            steps.extend(probes_after(kind, &init, &l, third, &|p| p == "min_mint_price"));
+            out.push(hist(kind, init, steps, "min-price-denom"));
         }
         // 2. every subset of the optional fields, then the probes of the supplied parameters
         //    plus a sample of the omitted ones (which must still show their old values)
